@@ -32,6 +32,29 @@
 
 #include "../types/xsimd_all_registers.hpp"
 
+#ifdef XSIMD_VERIF
+// Verification seam (off unless XSIMD_VERIF is defined): lets a test harness
+// substitute the CPUID/XGETBV instructions and re-run detection per simulated boot.
+namespace xsimd
+{
+    namespace verif
+    {
+        struct cpu_source
+        {
+            void (*cpuid)(void* ctx, int reg[4], int level, int count);
+            unsigned (*xgetbv0)(void* ctx);
+            void* ctx;
+            unsigned long boot; // bumped by the simulator at every simulated reboot
+        };
+        inline cpu_source*& current_cpu_source() noexcept
+        {
+            static cpu_source* s = nullptr;
+            return s;
+        }
+    }
+}
+#endif
+
 namespace xsimd
 {
     namespace detail
@@ -127,6 +150,10 @@ namespace xsimd
                 auto get_xcr0_low = []() noexcept
                 {
                     uint32_t xcr0;
+#ifdef XSIMD_VERIF
+                    if (::xsimd::verif::cpu_source* xsimd_verif_src = ::xsimd::verif::current_cpu_source())
+                        return (uint32_t)xsimd_verif_src->xgetbv0(xsimd_verif_src->ctx);
+#endif
 
 #if defined(_MSC_VER) && _MSC_VER >= 1400
 
@@ -154,6 +181,10 @@ namespace xsimd
 
                 auto get_cpuid = [](int reg[4], int level, int count = 0) noexcept
                 {
+#ifdef XSIMD_VERIF
+                    if (::xsimd::verif::cpu_source* xsimd_verif_src = ::xsimd::verif::current_cpu_source())
+                        return xsimd_verif_src->cpuid(xsimd_verif_src->ctx, reg, level, count);
+#endif
 
 #if defined(_MSC_VER)
                     __cpuidex(reg, level, count);
@@ -256,6 +287,20 @@ namespace xsimd
 
     XSIMD_INLINE detail::supported_arch available_architectures() noexcept
     {
+#ifdef XSIMD_VERIF
+        if (::xsimd::verif::cpu_source* xsimd_verif_src = ::xsimd::verif::current_cpu_source())
+        {
+            // same "detect once, then serve the cached copy" discipline, keyed by simulated boot
+            static detail::supported_arch xsimd_verif_cached;
+            static unsigned long xsimd_verif_cached_boot = 0;
+            if (xsimd_verif_cached_boot != xsimd_verif_src->boot)
+            {
+                xsimd_verif_cached = detail::supported_arch();
+                xsimd_verif_cached_boot = xsimd_verif_src->boot;
+            }
+            return xsimd_verif_cached;
+        }
+#endif
         static detail::supported_arch supported;
         return supported;
     }
